@@ -37,6 +37,7 @@ type Prog struct {
 	inlineNotes []string // new helper functions read as part of their callers (inline.go)
 	inlinedAway map[*types.Func]bool
 	newHelpers  map[*types.Func]bool // functions the reference tree did not have (inline.go)
+	inlinedN    map[*types.Func]int // number of calls of a new helper that were read in place
 	inlinedAt   map[string]bool      // file:line of every call the inliner replaced by the helper's body
 	origBody    map[*types.Func]*ast.BlockStmt // bodies as written, of functions that call new helpers
 	newCallees  map[*types.Func][]*types.Func  // the new helpers each of them calls
